@@ -7,12 +7,15 @@ E(op, s, m, q, r, f, w, w2) == [op |-> op, s |-> s, m |-> m, q |-> q, r |-> r, f
 GenInit == /\ kern = [s \in Slots |-> Dead]
            /\ loaded = [m \in Models |-> FALSE]
            /\ wrap \in [Wrappers -> [m : WModels, store : {"mono"}]]
+           /\ dm = [x \in Models \X QSets |-> <<"garbage">>]
            /\ dict = [r \in Requests |-> TRUE]
            /\ ret = NoRet /\ nops = 0
            /\ hist = <<>>
 GenNext ==
     \/ \E s \in Slots, m \in Models, q \in QSets : MakeKernel(s, m, q) /\ hist' = Append(hist, E("make", s, m, q, "", FALSE, "", ""))
     \/ \E s \in Slots, r \in Requests, f \in BOOLEAN : Call(s, r, f) /\ hist' = Append(hist, E("call", s, kern[s].m, kern[s].q, r, f, "", ""))
+    \/ \E m \in Models, q \in QSets, r \in Requests : Direct(m, q, r) /\ hist' = Append(hist, E("direct", "", m, q, r, FALSE, "", ""))
+    \/ \E m \in Models : Reload(m) /\ hist' = Append(hist, E("reload", "", m, "", "", FALSE, "", ""))
     \/ \E s \in Slots : ReleaseKernel(s) /\ hist' = Append(hist, E("release", s, "", "", "", FALSE, "", ""))
     \/ \E m \in Models : ReleaseModel(m) /\ hist' = Append(hist, E("relmodel", "", m, "", "", FALSE, "", ""))
     \/ \E w \in Wrappers, r \in Requests : SetParam(w, r) /\ hist' = Append(hist, E("set", "", "", "", r, FALSE, w, ""))
